@@ -14,7 +14,7 @@ RULE = ("pairs of complete runs differing only in observer settings, compared by
         "scripted schedules of Display.should_display - ALL 2^8 display patterns on runs cut at 8 iterations (also at DEBUG level), and all "
         "patterns with <= 1 (quick) / 2 (thorough) deviations from never/always on 40-iteration runs; display_interval {0, 1e-16, 0.1} under a "
         "stepping virtual clock; callback sets {recorder, one forcing every lazy property of both iterates, both}; collect_path; report_rcond x "
-        "linear solver {LU, GMRES, MINRES}. distinct = (base, variant) pairs whose variant actually displayed a row, logged, or called back")
+        "linear solver {LU, GMRES, MINRES}; report_rcond with the k-th transposed solve (used only by the condition estimator) failing, every k up to 8/24. distinct = (base, variant) pairs whose variant actually displayed a row, logged, or called back")
 ASSUMPTIONS = ["the schedule of displayed rows is owned by patching Display.should_display (its only nondeterministic input is the wall clock)",
                "log records are formatted and dropped by a sink handler"]
 CASE_ALARM_S = 300
@@ -35,6 +35,20 @@ def bases(tier):
         for cfg in cfgs:
             out.append((spec, cfg, G.scalings_of(spec, (0, 1))[k % 2]))
             k += 1
+    # objective defined only for x > pole (no variable bounds): some Newton iterates leave the domain
+    for pole, x0 in (([-0.3, -0.3], [0.2, 0.2]), ([-0.05, -1.0], [1.0, 0.5])):
+        dom = G.raw(2, {"H": [[1.0, 0.0], [0.0, 1.0]], "g": [2.0, 2.0], "logbar": {"mu": 0.1, "pole": pole, "sign": [1.0, 1.0]}}, [],
+                    ["-inf", "-inf"], ["inf", "inf"], x0, f"domain_restricted|{pole}")
+        for li in (0.1, 1.0):
+            for ctl in ("DistanceRatio", "ResiduumRatio", "Exact"):
+                out.append((dom, {"control": ctl, "params": {"lamb_init": li, "lamb_inc": 4.0}}, None))
+    # entropy-regularised quadratic (defined for x > 0 only), far start, large first steps
+    for x0 in ([2.5, 3.0], [4.0, 0.5]):
+        ent = G.raw(2, {"H": [[2.0, 1.5], [1.5, 2.0]], "g": [0.0, 0.0], "entropy": True}, [], ["-inf", "-inf"], ["inf", "inf"], x0, f"entropy|{x0}")
+        for li in (0.1, 0.02):
+            for linc in (2.0, 4.0):
+                for ctl in ("DistanceRatio", "ResiduumRatio"):
+                    out.append((ent, {"control": ctl, "params": {"lamb_init": li, "lamb_inc": linc}}, None))
     return out
 
 
@@ -64,6 +78,10 @@ def variants(tier):
     v.append({"v": "path", "H": 40})
     for lin in ("LU", "GMRES", "MINRES"):
         v.append({"v": "rcond", "H": 40, "linear": lin})
+    # failures INSIDE an observer: the k-th transposed solve (only the condition estimator solves with the transpose) fails
+    for lin in ("LU", "GMRES"):
+        for k in (range(1, 9) if tier == "quick" else range(1, 25)):
+            v.append({"v": "rcond_fault", "H": 40, "linear": lin, "k": k})
     v.append({"v": "all", "H": 40})
     return v
 
@@ -92,11 +110,22 @@ def _should_display(self):
 
 
 def force(iterate, next_iterate, accept):
+    """A well-behaved observer: looks at everything, and copes with trial points the functions are not defined at."""
+    from pygradflow.eval import EvalError
+
     for it in (iterate, next_iterate):
-        it.obj, it.obj_grad, it.cons, it.cons_jac, it.active_set, it.bounds_dual, it.stat_res
-        it.cons_violation, it.bound_violation, it.total_res, it.z, it.aug_lag(1.0), it.aug_lag_deriv_x(2.0)
-        it.is_feasible(1e-6), it.locally_infeasible(1e-6, 1e-8)
-    iterate.obj_nonlin(next_iterate)
+        for look in (lambda: it.obj, lambda: it.obj_grad, lambda: it.cons, lambda: it.cons_jac, lambda: it.active_set,
+                     lambda: it.bounds_dual, lambda: it.stat_res, lambda: it.cons_violation, lambda: it.bound_violation,
+                     lambda: it.total_res, lambda: it.z, lambda: it.aug_lag(1.0), lambda: it.aug_lag_deriv_x(2.0),
+                     lambda: it.is_feasible(1e-6), lambda: it.locally_infeasible(1e-6, 1e-8)):
+            try:
+                look()
+            except EvalError:
+                pass
+    try:
+        iterate.obj_nonlin(next_iterate)
+    except EvalError:
+        pass
     iterate.dist(next_iterate)
 
 
@@ -112,6 +141,7 @@ def run_variant(spec, cfg, sc, var):
     patched = False
     pre = None
     used = {"shown": 0, "cb": 0}
+    lin_faults = None
     v = var["v"]
     if v == "pattern":
         _PAT.update(pat=var["pat"], k=0, shown=0)
@@ -132,6 +162,10 @@ def run_variant(spec, cfg, sc, var):
         params["report_rcond"] = True
         c["linear"] = var["linear"]
         c["step_solver"] = "Symmetric" if var["linear"] == "MINRES" else c.get("step_solver", "Symmetric")
+    elif v == "rcond_fault":
+        params["report_rcond"] = True
+        c["linear"] = var["linear"]
+        lin_faults = R.FaultLinear(fail_trans_solve=[var["k"]])
     elif v == "all":
         params["collect_path"] = True
         params["report_rcond"] = True
@@ -146,7 +180,7 @@ def run_variant(spec, cfg, sc, var):
     if patched:
         pdisplay.Display.should_display = _should_display
     try:
-        ctx = G.execute({"spec": spec, "cfg": c, "sc": sc}, clock=clock, log_level=level, pre=pre,
+        ctx = G.execute({"spec": spec, "cfg": c, "sc": sc}, clock=clock, log_level=level, pre=pre, linear_faults=lin_faults,
                         solver_cls=lambda p, prm: R.RecSolver(p, prm, record_callbacks=False))
     finally:
         pdisplay.Display.should_display = orig
@@ -158,7 +192,7 @@ def base_cfg_for(cfg, var):
     """The baseline shares the algorithmic parameters of the variant (linear solver for the rcond variants)."""
     c = dict(cfg)
     c["iteration_limit"] = var["H"]
-    if var["v"] == "rcond":
+    if var["v"] in ("rcond", "rcond_fault"):
         c["linear"] = var["linear"]
         c["step_solver"] = "Symmetric" if var["linear"] == "MINRES" else c.get("step_solver", "Symmetric")
     return c
@@ -195,7 +229,7 @@ def run_case(case):
                 sig = f"C09|{vname}|trajectory"
             viol.append({"sig": sig, "msg": f"{what}; variant={ {k: v for k, v in var.items() if k != 'pat'} } pattern={var.get('pat')}",
                          "case": dict(case, variants=[var])})
-        if used["shown"] or used["cb"] or var["v"] in ("log", "interval", "path", "rcond"):
+        if used["shown"] or used["cb"] or var["v"] in ("log", "interval", "path", "rcond", "rcond_fault"):
             keys.append(f"{spec['tag']}|{G.cfg_key(cfg)}|{sc is not None}|{var}")
     seen, vs = set(), []
     for v in viol:
